@@ -2,6 +2,7 @@
 """tools/seed_prompt.py <ID>  -> prompt text for an independent seeding sub-agent (property text only, nothing from /verif)."""
 import json, sys
 pid = sys.argv[1]
+N1, N2 = (sys.argv[2], sys.argv[3]) if len(sys.argv) > 3 else ("m1", "m2")
 for l in open('/verif/properties.jsonl'):
     p = json.loads(l)
     if p['id'] == pid:
@@ -22,7 +23,7 @@ The semantic property under study:
   why the existing tests cannot settle it: {p['why_tests_cant']}
   code anchors: files {anch.get('files')}; mechanisms {json.dumps(anch.get('mechanism'))}
 
-TASK. Produce TWO independent, different changes (m1 and m2) to the library source under abtem/ , each of which
+TASK. Produce TWO independent, different changes ({N1} and {N2}) to the library source under abtem/ , each of which
   (a) BREAKS the property above (for some inputs / histories / configurations the statement becomes false),
   (b) still imports and runs, and keeps the existing test suite passing exactly as before (the suite is run with
       `cd /tmp/seed/{pid}/wt && /venv/bin/python -m pytest -q -p no:cacheprovider --timeout=900 -x -q test/<relevant files>`; the complete suite takes about 3.5 minutes: `/venv/bin/python -m pytest -q -p no:cacheprovider --timeout=900`; on the clean tree it gives 509 passed plus a fixed set of pre-existing failures/errors/skips that you must not change - compare the sorted list of FAILED/ERROR ids before and after),
@@ -32,8 +33,8 @@ TASK. Produce TWO independent, different changes (m1 and m2) to the library sour
 For each change also write a small self-contained demonstration program that exits 0 on the unchanged tree and exits non-zero (with a short message) when the change is applied, showing the property violated through the public behaviour of the library. The demo must import abtem from the current working directory's tree (it will be run as `cd <worktree> && /venv/bin/python <demo>` - put `import sys, os; sys.path.insert(0, os.getcwd())` at the top), must be deterministic, and should run in under a minute.
 
 DELIVERABLES, all under /tmp/seed/{pid}/out/ :
-  m1.diff  m2.diff      unified diffs produced with `git -C /tmp/seed/{pid}/wt diff` (each relative to the clean checkout, each applying alone with `git apply`)
-  m1_demo.py m2_demo.py the demonstrations
-  m1.json m2.json       {{"property": "{pid}", "summary": "<what was changed and why it breaks the property>", "needs": "<what specific input/sequence/configuration is needed for it to manifest>", "tests_run": "<the exact test commands you ran with and without the change and their pass/fail counts>"}}
+  {N1}.diff  {N2}.diff      unified diffs produced with `git -C /tmp/seed/{pid}/wt diff` (each relative to the clean checkout, each applying alone with `git apply`)
+  {N1}_demo.py {N2}_demo.py the demonstrations
+  {N1}.json {N2}.json       {{"property": "{pid}", "summary": "<what was changed and why it breaks the property>", "needs": "<what specific input/sequence/configuration is needed for it to manifest>", "tests_run": "<the exact test commands you ran with and without the change and their pass/fail counts>"}}
 
 Procedure: make change 1 in the worktree, run the demo and the tests, save the diff, then `git -C /tmp/seed/{pid}/wt checkout -- .` and do change 2 the same way. Leave the worktree clean (checked out, no stray files) when you finish. Verify yourself that each demo exits 0 on the clean tree and non-zero with its patch. Keep your final answer short: list the files and one sentence per change.""")
